@@ -240,8 +240,30 @@ FIXED_QUERIES = [
 FIXED_DOC = {"k": 1, "items": [{"a": 1, "b": ["a"]}, {"a": 2, "b": []}, {"a": "a", "k": 1}], "a": {"k": 1}}
 
 
+# spellings that mix letters / digits with symbols: fine for every identifier but the keys selector, whose spelling then overlaps
+# with the syntax of member names (`.k#`, `[k#]`) - an overlap the statement excludes
+MIXED = ["k#", "s@", "r$", "x%", "s1@", "#k", "$1$", "@1", "#_", "u|", "k~", "_#", "\u00e9#", "a1%", "%a1", "k##", "#k#"]
+
+
 def covering_assignments():
     out = []
+    for ident in IDS:
+        if ident == "keys":
+            continue
+        for sp in MIXED:
+            a = {ident: sp}
+            full = dict(DEFAULT_TOKENS)
+            full.update(a)
+            if valid_assignment(full):
+                out.append(a)
+    # two identifiers on mixed spellings, one a prefix / suffix-sharing variant of the other
+    for (i, j) in itertools.permutations([x for x in IDS if x != "keys"], 2):
+        for a, b in (("k#", "k##"), ("#k", "#k#"), ("s@", "s1@"), ("k#", "#k"), ("a1%", "%a1")):
+            asg = {i: a, j: b}
+            full = dict(DEFAULT_TOKENS)
+            full.update(asg)
+            if valid_assignment(full):
+                out.append(asg)
     # each identifier on each pool spelling
     for ident in IDS:
         for sp in POOL:
